@@ -29,6 +29,10 @@ pub enum Negative {
     /// add `zzq9 :: ns.name` to the main file where `ns` is a module imported by the main file with `use` and `name`
     /// is a global of the main file that the module does not define
     ForeignMember(usize),
+    /// add `use <module A> as zzns` and `use <module B> as zzns` (two different files, one namespace name) to the main file
+    /// and `zzq9 :: zzns.name` with `name` a global of A that B neither defines nor re-exports: the guide says a namespace
+    /// name can be bound once ("since the namespace c is already used"), and `zzns` is documented to mean B by the second line
+    NamespaceTwice(usize),
 }
 
 #[derive(Clone, Serialize, Deserialize)]
@@ -215,6 +219,44 @@ fn apply_negative(files: &mut BTreeMap<String, String>, main: &str, neg: &Negati
             files.insert(main.to_string(), format!("{}zzq9 :: {}.{}\n", main_text, ns, name));
             true
         }
+        Negative::NamespaceTwice(k) => {
+            if m.files.len() < 3 {
+                return false;
+            }
+            let main_text = files.get(main).cloned().unwrap_or_default();
+            let top_names = |text: &str| -> Vec<String> {
+                text.lines()
+                    .filter(|l| !l.starts_with(' ') && (l.contains(" :: ") || l.contains(" := ")))
+                    .filter_map(|l| l.split_whitespace().next().map(|x| x.trim_end_matches(':').to_string()))
+                    .filter(|n| n.chars().next().map(|c| c.is_lowercase()).unwrap_or(false) && n != "start")
+                    .collect()
+            };
+            let words = |text: &str, n: &str| text.split(|c: char| !(c.is_alphanumeric() || c == '_')).any(|w| w == n);
+            // ordered pairs (A, B) of different non-main files and a name of A that B's text does not mention at all
+            let mut cands: Vec<(String, String, String)> = Vec::new();
+            for a in m.files.iter().skip(1) {
+                for b in m.files.iter().skip(1) {
+                    if a == b {
+                        continue;
+                    }
+                    let ta = files.get(&format!("/p/{}.sy", a)).cloned().unwrap_or_default();
+                    let tb = files.get(&format!("/p/{}.sy", b)).cloned().unwrap_or_default();
+                    for n in top_names(&ta) {
+                        if !words(&tb, &n) {
+                            cands.push((a.clone(), b.clone(), n));
+                        }
+                    }
+                }
+            }
+            if cands.is_empty() {
+                return false;
+            }
+            let (a, b, name) = cands[k % cands.len()].clone();
+            let pa = syltmodel::print::import_path(&m.files[0], &a, false);
+            let pb = syltmodel::print::import_path(&m.files[0], &b, false);
+            files.insert(main.to_string(), format!("use {} as zzns\nuse {} as zzns\n{}zzq9 :: zzns.{}\n", pa, pb, main_text, name));
+            true
+        }
     }
 }
 
@@ -228,10 +270,11 @@ impl Check for C12 {
         let prog = Gen::new(&mut t, crate::c11::toplevel_cfg(tier == Tier::Thorough)).program();
         let modules = module_plan(&mut t, &prog);
         let negative = if t.chance(1, 5) {
-            Some(match t.below(5) {
+            Some(match t.below(6) {
                 0 => Negative::MissingName,
                 1 => Negative::MissingFile,
                 2 | 3 => Negative::ForeignMember(t.below(16)),
+                4 => Negative::NamespaceTwice(t.below(64)),
                 _ => Negative::DropImport(t.below(16)),
             })
         } else {
@@ -320,7 +363,18 @@ impl Check for C12 {
             if !apply_negative(&mut files, &pf.main, neg, &case.modules) {
                 return Verdict::Discard("negative-not-applicable".into());
             }
-            labels.add(format!("negative:{}", match neg { Negative::DropImport(_) => "drop-import", Negative::MissingName => "missing-name", Negative::MissingFile => "missing-file", Negative::ForeignMember(_) => "foreign-member" }));
+            labels.add(format!("negative:{}", match neg { Negative::DropImport(_) => "drop-import", Negative::MissingName => "missing-name", Negative::MissingFile => "missing-file", Negative::ForeignMember(_) => "foreign-member", Negative::NamespaceTwice(_) => "namespace-twice" }));
+            if let Negative::NamespaceTwice(_) = neg {
+                // control: with the second `use .. as zzns` line removed the project is legal
+                let mut control = files.clone();
+                let mt = control.get(&pf.main).cloned().unwrap_or_default();
+                let kept: Vec<&str> = mt.lines().enumerate().filter(|(i, _)| *i != 1).map(|(_, l)| l).collect();
+                control.insert(pf.main.clone(), kept.join("\n") + "\n");
+                match compile(&Project { files: control, main: pf.main.clone(), std: true, require: None }) {
+                    Outcome::Accepted(_) => labels.add("namespace-twice-control-accepted"),
+                    _ => return Verdict::Discard("negative-control-rejected".into()),
+                }
+            }
             let nout = compile(&Project { files: files.clone(), main: pf.main.clone(), std: true, require: None });
             return match nout {
                 Outcome::Rejected { bytes_written, .. } => {
@@ -331,7 +385,7 @@ impl Check for C12 {
                     }
                 }
                 Outcome::Accepted(_) => Verdict::Violation {
-                    signature: format!("C12/negative-accepted/{}", match neg { Negative::DropImport(_) => "name-visible-without-import", Negative::MissingName => "import-of-missing-name", Negative::MissingFile => "import-of-missing-file", Negative::ForeignMember(_) => "member-of-other-file-through-namespace" }),
+                    signature: format!("C12/negative-accepted/{}", match neg { Negative::DropImport(_) => "name-visible-without-import", Negative::MissingName => "import-of-missing-name", Negative::MissingFile => "import-of-missing-file", Negative::ForeignMember(_) => "member-of-other-file-through-namespace", Negative::NamespaceTwice(_) => "one-namespace-name-for-two-files" }),
                     detail: format!("a project that must be rejected ({:?}) is accepted\n{}", neg, show(&files)),
                 },
                 Outcome::Panicked { .. } => Verdict::Discard("compiler-panicked".into()),
@@ -348,7 +402,10 @@ impl Check for C12 {
         let terminal = match &r.stop {
             None => Terminal::Ok,
             Some(Stop::AssertFailed) => Terminal::AssertFailed,
-            Some(Stop::Unreachable(uid)) => Terminal::Unreachable(*pf.unreachable_lines.get(uid).unwrap_or(&0) as u64),
+            Some(Stop::Unreachable(uid)) => match pf.unreachable_lines.get(uid) {
+                Some(l) if *l == usize::MAX => return Verdict::Discard("ref-unreachable-written-twice".into()),
+                l => Terminal::Unreachable(*l.unwrap_or(&0) as u64),
+            },
             Some(Stop::Budget(w)) => return Verdict::Discard(format!("ref-budget-{}", w)),
             Some(Stop::Dyn(k, _)) => {
                 labels.add("ref-dynerror");
